@@ -121,6 +121,26 @@ def random_cfg(rng, name, category=None, tracked=False, alloc="0000", maxlen=5):
         return c
 
 
+def bracket_cfg(rng, name):
+    """lists that drive the size fold into its worst-case branches: a low-aligned VaryingSize span leaves a small
+    alignment bracket, then come FixedSize / plain / VaryingSize parameters with a larger alignment (`alignment <
+    ALIGNMENT` in aligned_size_in_memory), with sizes of different low bits, then an optional tail"""
+    low = rng.choice([1, 1, 2, 4])
+    params = [("p", rng.choice(COUNT_TYPES), rng.choice([1, 2, 4, 8])),
+              ("v", rng.choice(["b1", "b2", "b3", "u16", "f32", "b5", "b6"]), low)]
+    for _ in range(rng.randint(1, 2)):
+        hi = rng.choice([a for a in (2, 4, 8, 16, 32) if a > low])
+        kind = rng.choice("ffpv")
+        if kind == "v":
+            params.append(("p", rng.choice(COUNT_TYPES), rng.choice([1, low])))
+            params.append(("v", rng.choice(["f32", "u64", "b12", "b24", "u32"]), hi))
+        else:
+            params.append((kind, rng.choice(["u32", "b12", "b5", "u64", "f32", "b3", "b6", "u16"]), hi))
+    if rng.random() < 0.6:
+        params.append(("p", rng.choice(TRIVIAL_TYPES), rng.choice(ALIGNS)))
+    return Cfg(name, params)
+
+
 # corpus: the typedefs of test/utils/typedefs.hpp, the lists of test-vector-alignment.cpp, past failures
 CORPUS = [
     Cfg("plain", [("p", "u32", 1), ("p", "f32", 1)]),
@@ -150,9 +170,18 @@ CORPUS = [
     Cfg("s-align-269", [("p", "b16", 1), ("p", "u64", 8), ("v", "b32", 16), ("p", "f32", 32)]),
     Cfg("s-align-287", [("p", "u64", 8), ("v", "b4", 1), ("p", "b12", 1), ("p", "u64", 8), ("v", "b32", 16), ("p", "f32", 32)]),
     Cfg("s-align-306", [("p", "f64", 1), ("p", "u64", 8), ("v", "b16", 16), ("p", "f32", 16)]),
+    Cfg("bracket-fixed", [("p", "u64", 8), ("v", "f32", 1), ("f", "u32", 8), ("p", "u64", 8)]),
+    Cfg("bracket-plain", [("p", "u32", 4), ("v", "b3", 1), ("p", "b12", 8), ("p", "u16", 2)]),
+    Cfg("bracket-varying", [("p", "u16", 2), ("v", "b1", 1), ("p", "u8", 1), ("v", "u64", 16), ("p", "b5", 4)]),
     Cfg("trk-fixed", [("p", "u32", 1), ("f", "t12", 1)]),
     Cfg("trk-varying", [("p", "u8", 1), ("v", "t5", 1), ("p", "t8", 4)]),
     Cfg("trk-mixed", [("f", "t12", 16), ("p", "u16", 2), ("v", "b3", 4), ("p", "t5", 8)]),
+    # non-trivial types whose elements do NOT end on a multiple of the storage alignment: the element-wise relocation of
+    # erase has to re-align every relocated element itself
+    Cfg("trk-tail-varying", [("p", "t8", 8), ("p", "u64", 8), ("v", "b1", 1)]),
+    Cfg("trk-tail-odd", [("p", "u16", 2), ("v", "t5", 1), ("p", "b3", 1)]),
+    Cfg("trk-tail-aligned16", [("p", "u32", 4), ("v", "t12", 16), ("p", "b5", 1)]),
+    Cfg("trk-fixed-tail", [("f", "t5", 1), ("p", "u32", 4), ("p", "b3", 1)]),
 ]
 
 
@@ -554,6 +583,9 @@ def gen_fault_matrix(rng, cfg, faults=(0, 1)):
     """systematic fault enumeration: for every allocating operation between a small and a large vector (two
     allocator instances) fail its 1st and its 2nd allocation in turn; then dump, reuse and tear down the operands"""
     fixed = [rng.choice([1, 2]) for _ in range(cfg.nfixed())]
+    # the second vector (and the fresh source used afterwards) is built with other fixed sizes: assignment, move and
+    # swap have to carry the fixed sizes over, whichever branch they take
+    fixed_b = [f + rng.choice([1, 2]) for f in fixed] if rng.random() < 0.7 else list(fixed)
     _, pay0, same = gen_elem(rng, cfg, fixed, 3, 10 ** 9)
 
     def setup():
@@ -562,8 +594,8 @@ def gen_fault_matrix(rng, cfg, faults=(0, 1)):
         lines.append("new v0 4 %d %s 1" % (4 * pay0, fixed_text(fixed)))
         for _ in range(3):
             lines.append("emplace v0 %s" % gen_elem(rng, cfg, fixed, 3, 10 ** 9, same)[0])
-        lines.append("new v1 1 %d %s 2" % (pay0, fixed_text(fixed)))
-        lines.append("emplace v1 %s" % gen_elem(rng, cfg, fixed, 3, 10 ** 9, same)[0])
+        lines.append("new v1 1 %d %s 2" % (pay0, fixed_text(fixed_b)))
+        lines.append("emplace v1 %s" % gen_elem(rng, cfg, fixed_b, 3, 10 ** 9, same)[0])
         return lines
 
     seqs = []
@@ -577,7 +609,7 @@ def gen_fault_matrix(rng, cfg, faults=(0, 1)):
             if op.startswith("swap v0 v1") and not pocs_ok:
                 continue   # allocator-aware swap of unequal non-propagating allocators is outside the contract
             lines += [op, "dump v0", "dump v1", "dump v2"]
-            lines += ["new v4 2 %d %s 1" % (2 * pay0, fixed_text(fixed)), "emplace v4 %s" % gen_elem(rng, cfg, fixed, 3, 10 ** 9, same)[0],
+            lines += ["new v4 2 %d %s 1" % (2 * pay0, fixed_text(fixed_b)), "emplace v4 %s" % gen_elem(rng, cfg, fixed_b, 3, 10 ** 9, same)[0],
                       "clear v1", "dump v1", "copyassign v4 v1", "dump v1", "moveassign v4 v0", "dump v0", "dump v4",
                       "destroy v0", "destroy v1", "destroy v2", "destroy v4", "end"]
             seqs.append(lines)
@@ -587,7 +619,7 @@ def gen_fault_matrix(rng, cfg, faults=(0, 1)):
             lines = setup()
             # afterwards every operand must still be usable: dumped, cleared, assigned to (from a fresh vector), destroyed
             lines += ["failat %d" % k, op, "failoff", "dump v0", "dump v1", "dump v2",
-                      "new v4 2 %d %s 1" % (2 * pay0, fixed_text(fixed)), "emplace v4 %s" % gen_elem(rng, cfg, fixed, 3, 10 ** 9, same)[0],
+                      "new v4 2 %d %s 1" % (2 * pay0, fixed_text(fixed_b)), "emplace v4 %s" % gen_elem(rng, cfg, fixed_b, 3, 10 ** 9, same)[0],
                       "clear v1", "dump v1", "copyassign v4 v1", "dump v1", "copyassign v4 v0", "dump v0",
                       "destroy v0", "destroy v1", "end"]
             seqs.append(lines)
